@@ -98,6 +98,9 @@ structure InstW where
                                     -- (non-leading) instance: a watch notification, a periodic check or Watch call that failed or found nothing
   lastMissAt : Option Nat := none   -- the latest of them that was a periodic check finding no record
   lastCreateAt : Option Nat := none -- its latest Create call
+  createDebtAt : Option Nat := none  -- a Create call that nothing accounted for when it was logged (the notification that caused it is logged after it, at the same instant)
+  createCredit : Int := 0        -- Create calls still covered by what could have started them: one per accepted Start, four per
+                                -- acquisition round (vacancy notification, periodic check that found nothing), one per takeover opportunity
   healthDemoted : Bool := false -- this instance has been demoted by the health mechanism at least once
   cut : Bool := false           -- crashed / partitioned
   recentCalls : List Nat := []  -- times of the store calls of the last 100 ms (C13: no spinning)
